@@ -320,7 +320,8 @@ func (rs *rollSync) healthy(w *World, s *Setup, key string, ver []byte) bool {
 	res := w.Store.ResourceByKind(parts[0], parts[1])
 	rule := s.Cfg.Rule(res)
 	if rule.Method == "RollingInPlace" {
-		if og := getInt(o, "status", "observedGeneration"); og > 0 && og < getInt(o, "metadata", "generation") {
+		// (a value that is not an integer - some kinds publish a string - counts as "does not report one")
+		if og, ok := intGeneration(getPath(o, "status", "observedGeneration")); ok && og > 0 && og < getInt(o, "metadata", "generation") {
 			return false
 		}
 	}
@@ -335,4 +336,20 @@ func sortedClaims(revs []*revInfo) string {
 		parts = append(parts, fmt.Sprintf("%s…%s=%v", r.Name[:8], r.Name[len(r.Name)-4:], c))
 	}
 	return strings.Join(parts, " ")
+}
+
+// intGeneration reads an observedGeneration the way a Kubernetes client sees it:
+// only integral JSON numbers are integers.
+func intGeneration(v interface{}) (int64, bool) {
+	switch x := v.(type) {
+	case int64:
+		return x, true
+	case int:
+		return int64(x), true
+	case float64:
+		if x == float64(int64(x)) {
+			return int64(x), true
+		}
+	}
+	return 0, false
 }
